@@ -459,3 +459,208 @@ func familyErrors() []Skeleton {
 		{ID: "err:div0-late", Prog: asm("lw t3, 8(zero)", "sw t0, 64(zero)", "add t4, t0, t1", "rem t2, t4, zero", "ret")},
 	}
 }
+
+// ---------------------------------------------------------------------------
+// Additions made after the first round of seeded changes (DESIGN §8): shapes
+// the first families did not contain. They are appended after the fixed
+// samples so that the keys of the earlier skeletons do not move.
+// ---------------------------------------------------------------------------
+
+func nops(n int, reg string) []string {
+	var out []string
+	for i := 0; i < n; i++ {
+		out = append(out, "addi "+reg+", "+reg+", 1")
+	}
+	return out
+}
+
+// extraShadows: fetch-pair alignment of branch+jump, jump targets beyond the
+// landing point, and a taken branch near the end of a program longer than one
+// instruction-cache line whose target lies in a line not fetched yet.
+func extraShadows() []Skeleton {
+	var out []Skeleton
+	for lead := 0; lead <= 2; lead++ {
+		for _, br := range [][2]string{{"beqz-raw", "beqz s0, land"}, {"beq-zero", "beq zero, zero, land"}} {
+			for _, sh := range [][2]string{{"jal-ra", "jal ra, beyond"}, {"j", "j beyond"}, {"jal-far", "jal t5, far"}} {
+				l := []string{"li s0, 0"}
+				l = append(l, nops(lead, "s1")...)
+				l = append(l, br[1], sh[1], "li s5, 9", "add s9, t3, zero", "ret",
+					"far:", "li s6, 5", "land:", "add s7, t3, t4", "lw s8, 136(zero)", "add s9, s8, zero", "ret",
+					"beyond:", "li s10, 7", "add s11, s10, zero", "ret")
+				out = append(out, Skeleton{ID: fmt.Sprintf("shadow2:%s:%s:lead%d", br[0], sh[0], lead), Prog: asm(l...)})
+			}
+		}
+	}
+	// a load-fed taken branch with a jump in its shadow whose target is above / below the branch target
+	out = append(out, Skeleton{ID: "shadow2:ld-branch:j-above", Prog: asm("lw t0, 72(zero)", "sub t0, t0, t0", "beqz t0, land", "j above", "li s5, 9", "ret",
+		"land:", "li s6, 1", "add s7, s6, t1", "mid:", "addi s7, s7, 1", "above:", "addi s8, s7, 2", "add s9, s8, zero", "ret")})
+	out = append(out, Skeleton{ID: "shadow2:ld-branch:j-below", Prog: asm("lw t0, 72(zero)", "sub t0, t0, t0", "j start", "below:", "li s10, 3", "ret", "start:", "beqz t0, land", "j below", "li s5, 9", "ret",
+		"land:", "li s6, 1", "add s7, s6, t1", "add s9, s7, zero", "ret")})
+	out = append(out, Skeleton{ID: "shadow2:ld-beqz-dd:j-above", Prog: asm("lw t0, 72(zero)", "beqz t0, land", "j above", "li s5, 9", "ret",
+		"land:", "li s6, 1", "add s7, s6, t1", "mid:", "addi s7, s7, 1", "above:", "addi s8, s7, 2", "add s9, s8, zero", "ret")})
+	out = append(out, Skeleton{ID: "shadow2:ld-beqz-dd:jal-above", Prog: asm("lw t0, 0(zero)", "beqz t0, land", "jal ra, above", "li s5, 9", "ret",
+		"land:", "li s6, 1", "add s7, s6, t1", "addi s7, s7, 1", "above:", "addi s8, s7, 2", "add s9, s8, zero", "ret")})
+	// program longer than one 16-instruction I-cache line; the branch sits 1-3 instructions before the end and jumps back into a line never fetched
+	for tail := 0; tail <= 2; tail++ {
+		l := []string{"j A"}
+		l = append(l, nops(16, "s1")...)
+		l = append(l, "B:", "li s6, 5", "add s7, s6, t0", "sw s7, 64(zero)", "lw s8, 64(zero)", "add s9, s8, zero", "ret")
+		l = append(l, nops(10, "s1")...)
+		l = append(l, "A:", "li s5, 1", "beq zero, zero, B")
+		l = append(l, nops(tail, "s2")...)
+		out = append(out, Skeleton{ID: fmt.Sprintf("shadow2:branch-at-end:tail%d", tail), Prog: asm(l...), MaxSteps: 64})
+	}
+	return out
+}
+
+// extraMemDeps: write-buffer triples (an older store miss keeps the write unit
+// busy while a second store waits on the bus and a load of its address
+// follows), and load->store through independent address registers on a line
+// that is already cached at every level.
+func extraMemDeps() []Skeleton {
+	var out []Skeleton
+	for d := 1; d <= 2; d++ {
+		for _, w := range []string{"cold", "warm"} {
+			pre := []string{}
+			if w == "warm" {
+				pre = []string{"lw t6, 16(zero)", "add a7, t6, zero"}
+			}
+			mk := func(id string, init string, lines ...string) {
+				l := append(append([]string{}, pre...), lines[:len(lines)-1]...)
+				l = append(l, fillers(d-1)...)
+				l = append(l, lines[len(lines)-1])
+				out = append(out, Skeleton{ID: fmt.Sprintf("%s:%s:d%d", id, w, d), Prog: asm(l...), Init: init})
+			}
+			mk("wb:st-st-ld", "", "sw t0, 136(zero)", "sw t1, 8(zero)", "lw t3, 8(zero)")
+			mk("wb:st-st-ld-sameline", "", "sw t0, 12(zero)", "sw t1, 8(zero)", "lw t3, 8(zero)")
+			mk("wb:st-st-st", "", "sw t0, 136(zero)", "sw t1, 8(zero)", "sw t2, 8(zero)")
+			mk("ld-st:regs", "s0=8,s1=8", "lw t3, 0(s0)", "sw t0, 0(s1)")
+			mk("ld-ld-st:regs", "s0=8,s1=8,s2=12", "lw t3, 0(s0)", "lw t4, 0(s2)", "sw t0, 0(s1)")
+			mk("st-ld-other-st-ld", "s0=8,s1=8", "sw t0, 0(s0)", "lw t3, 72(zero)", "lw t4, 0(s1)")
+		}
+	}
+	// the line is brought in by a load of its FIRST byte (MVP-3..6 key a line by the first missing address), then pairs inside it
+	for d := 1; d <= 3; d++ {
+		pre := []string{"lw t6, 64(zero)", "add a7, t6, zero"}
+		mk := func(id string, lines ...string) {
+			l := append(append([]string{}, pre...), lines[0])
+			l = append(l, fillers(d-1)...)
+			l = append(l, lines[1:]...)
+			out = append(out, Skeleton{ID: fmt.Sprintf("%s:warm0:d%d", id, d), Prog: asm(l...), Init: "s0=72,s1=72,s2=64"})
+		}
+		mk("ld-st:regs", "lw t3, 0(s0)", "sw t0, 0(s1)")
+		mk("st-ld:regs", "sw t0, 0(s0)", "lw t3, 0(s1)")
+		mk("st-st:regs", "sw t0, 0(s0)", "sw t1, 0(s1)")
+		mk("ld-st:abs", "lw t3, 72(zero)", "sw t0, 72(zero)")
+		mk("ld-st:off", "lw t3, 8(s2)", "sw t0, 0(s1)")
+	}
+	return withSync(out, "t3", "t4", "t5", "t6")
+}
+
+// extraDeps: WAR behind a forwarded consumer, link-register dependences.
+func extraDeps() []Skeleton {
+	out := []Skeleton{
+		{ID: "dep+:war-fwd", Prog: asm("lw t0, 8(zero)", "add t1, t0, t2", "li t2, 7", "add t3, t1, t2", "ret")},
+		{ID: "dep+:war-fwd2", Prog: asm("lw t0, 8(zero)", "add t1, t2, t0", "add t2, t0, t0", "sub t3, t1, t2", "ret")},
+		{ID: "dep+:waw-li-li-use", Prog: asm("li t0, 1", "li t0, 2", "add t1, t0, t0", "ret")},
+		{ID: "dep+:jal-link-use", Prog: asm("jal t0, next", "nop", "next:", "addi t4, t0, 0", "add t1, t4, t0", "ret")},
+		{ID: "dep+:jalr-link-use", Prog: asm("jalr t0, s0, 8", "nop", "addi t4, t0, 0", "add t1, t4, t0", "ret"), Init: "s0=0"},
+		{ID: "dep+:raw-after-store", Prog: asm("sw t0, 128(zero)", "add t0, t1, t2", "add t3, t0, t0", "sw t3, 132(zero)", "ret")},
+	}
+	return withSync(out, "t0", "t1", "t2", "t3")
+}
+
+// extraGeneral: indirect returns from two call sites (stale branch-target
+// entries), rename-ring wrap-around before a load-fed branch, upper-half L3 data.
+func extraGeneral() []Skeleton {
+	ring := []string{"li t0, 0"}
+	ring = append(ring, nops(10, "t0")...)
+	ring = append(ring, "lw t1, 8(zero)", "beqz t1, L", "addi t0, t0, 100", "L:", "add a3, t0, zero", "ret")
+	ring9 := []string{"li t0, 0"}
+	ring9 = append(ring9, nops(9, "t0")...)
+	ring9 = append(ring9, "lw t1, 8(zero)", "beqz t1, L", "addi t0, t0, 100", "L:", "add a3, t0, zero", "ret")
+	return []Skeleton{
+		{ID: "gen+:two-call-sites", Prog: asm("li a1, 0", "jal ra, f", "addi a1, a0, 10", "jal ra, f", "addi a2, a0, 20", "ret", "f:", "addi s1, s1, 1", "mv a0, s1", "jalr zero, ra, 0"), Init: "s1=0", MaxSteps: 32},
+		{ID: "gen+:ring10-branch", Prog: asm(ring...), MaxSteps: 32},
+		{ID: "gen+:ring9-branch", Prog: asm(ring9...), MaxSteps: 32},
+		{ID: "gen+:loop-store", Prog: asm("li s0, 0", "li s1, 8", "loop:", "sw t0, 64(s0)", "addi s0, s0, 4", "blt s0, s1, loop", "lw t3, 64(zero)", "lw t4, 68(zero)", "add a3, t3, t4", "ret"), MaxSteps: 32},
+	}
+}
+
+// extraCache: double miss on one address before a store, the last line and
+// last byte of memory, upper half of an L3 line under L3 eviction.
+func extraCache() []Skeleton {
+	out := []Skeleton{
+		{ID: "cache+:double-load-store", Prog: asm("lw t3, 128(zero)", "lw t4, 128(zero)", "add t5, t3, t4", "sw t0, 128(zero)", "lw t6, 132(zero)", "ret")},
+		{ID: "cache+:last-line", Prog: asm("lb t3, 255(zero)", "sw t0, 192(zero)", "lb t4, 254(zero)", "lw t5, 252(zero)", "ret")},
+		{ID: "cache+:last-byte-store", Prog: asm("lw t3, 200(zero)", "sb t0, 255(zero)", "lb t4, 255(zero)", "lw t5, 252(zero)", "ret")},
+		{ID: "cache+:first-and-last", Prog: asm("lw t3, 0(zero)", "sw t0, 252(zero)", "lw t4, 252(zero)", "sw t1, 0(zero)", "lw t5, 0(zero)", "ret")},
+	}
+	return withSync(out, "t3", "t4", "t5", "t6")
+}
+
+// familyEvictionUpper: as familyEviction, but the dirty data sits in the upper
+// half of a 128-byte L3 line (offset 64+).
+func familyEvictionUpper(n, stride int, id string) Skeleton {
+	var l []string
+	l = append(l, "lw t3, 64(zero)", "sw t0, 68(zero)", "sw t1, 64(zero)")
+	for i := 1; i <= n; i++ {
+		l = append(l, fmt.Sprintf("lw t4, %d(zero)", i*stride))
+	}
+	l = append(l, "lw t5, 68(zero)", "lw t6, 64(zero)")
+	l = append(l, syncTail("t3", "t4", "t5", "t6")...)
+	l = append(l, "ret")
+	return Skeleton{ID: id, Prog: asm(l...), Mem: (n + 2) * stride, SymMem: "64-80", MaxSteps: n + 16}
+}
+
+// extraCoherence: shapes in which a line changes owner while speculative or
+// dependent accesses to it are in flight on other cores.
+func extraCoherence() []Skeleton {
+	return []Skeleton{
+		{ID: "coh:spec-load-of-modified-line", Prog: asm("sw t1, 64(zero)", "lw t3, 0(zero)", "addi t4, t3, 0", "lw t5, 128(t3)", "addi t6, t5, 0", "beqz a5, skip", "lw t2, 64(zero)", "skip:", "sw t1, 68(zero)", "ret"), SymMem: "64-72"},
+		{ID: "coh:ld-branch-shadow-store", Prog: asm("lw t0, 0(zero)", "beq t0, zero, end", "sw t1, 64(zero)", "end:", "ret")},
+		{ID: "coh:ld-branch-shadow-store2", Prog: asm("lw t0, 0(zero)", "beq t0, zero, end", "sw t1, 64(zero)", "sw t2, 128(zero)", "end:", "lw t3, 64(zero)", "add a3, t3, zero", "ret")},
+		{ID: "coh:shared-readers", Prog: asm("lw t0, 0(zero)", "lw t1, 4(zero)", "add t2, t0, t1", "sw t2, 64(zero)", "sw t2, 128(zero)", "lw t3, 68(zero)", "lw t4, 132(zero)", "add t5, t3, t4",
+			"lw a0, 8(zero)", "lw a1, 12(zero)", "add a2, a0, a1", "lw a3, 16(zero)", "add a2, a2, a3", "lw a4, 20(zero)", "add a2, a2, a4", "ret"), MaxSteps: 32},
+		{ID: "coh:sh-bytes", Prog: asm("sh t0, 8, zero", "sh t1, 10, zero", "sh t2, 72, zero", "sh t0, 74, zero", "lw t3, 8(zero)", "lw t4, 72(zero)", "add a3, t3, t4", "ret")},
+	}
+}
+
+// extraControl: indirect jumps that are forwarded on one visit and not on
+// another, long forward jumps over several instruction-cache windows.
+func extraControl() []Skeleton {
+	long := []string{"li t0, 1", "j skip"}
+	long = append(long, nops(70, "s1")...)
+	long = append(long, "skip:", "addi t1, t0, 1", "ret")
+	back := []string{"j start", "target:", "addi t1, t0, 1", "ret"}
+	back = append(back, nops(40, "s1")...)
+	back = append(back, "start:", "li t0, 1", "j target")
+	return []Skeleton{
+		{ID: "ctl:jalr-fwd-then-not", Prog: asm("addi t0, zero, 20", "j X", "P:", "addi t0, zero, 32", "X:", "jalr zero, t0, 0", "nop", "A:", "addi t1, t1, 1", "j P", "nop", "B:", "addi t2, t2, 1", "ret"), MaxSteps: 32},
+		{ID: "ctl:long-forward-jump", Prog: asm(long...), MaxSteps: 16},
+		{ID: "ctl:long-backward-jump", Prog: asm(back...), MaxSteps: 16},
+	}
+}
+
+// familyEvictionChain: a store miss to base+off, then n serialised loads
+// (each followed by a dependent add) of distinct 128-byte lines, then a reload:
+// the dirty L1 line is written back to L3 and the L3 line is evicted later.
+func familyEvictionChain(n, off int, id string) Skeleton {
+	base := 1024
+	l := []string{fmt.Sprintf("sw t0, %d(zero)", base+off)}
+	for j := 0; j < n; j++ {
+		l = append(l, fmt.Sprintf("lw t1, %d(zero)", 2048+128*j), "add t2, t2, t1")
+	}
+	l = append(l, fmt.Sprintf("lw t3, %d(zero)", base+off), "add t4, t3, zero", "ret")
+	return Skeleton{ID: id, Prog: asm(l...), Mem: 2048 + 128*(n+2), SymMem: fmt.Sprintf("%d-%d", base+off, base+off+8), MaxSteps: 2*n + 16}
+}
+
+// extraTails: a load-fed branch whose fall-through path is a ret.
+func extraTails() []Skeleton {
+	return []Skeleton{
+		{ID: "tail+:lw-branch-ret", Prog: asm("lw t0, 72(zero)", "beqz t0, L", "ret", "L:", "addi t3, t0, 1", "ret")},
+		{ID: "tail+:lw-branch-ret-warm", Prog: asm("lw t6, 80(zero)", "add a7, t6, zero", "lw t0, 72(zero)", "beqz t0, L", "ret", "L:", "addi t3, t0, 1", "ret")},
+		{ID: "tail+:sw-sw-sameline-end", Prog: asm("sw t0, 72(zero)", "sw t1, 76(zero)", "sw t2, 80(zero)")},
+		{ID: "tail+:sw-sw-sw-ret", Prog: asm("sw t0, 72(zero)", "sw t1, 76(zero)", "sw t2, 136(zero)", "ret")},
+	}
+}
